@@ -1035,7 +1035,8 @@ class Exec:
         if ent[0] == "repomod":
             return RepoModRef(self.repo.module(ent[1]))
         _, relpath, name = ent
-        if relpath.endswith(".pyx") and not (self.cur_func is not None and self.cur_func.module.relpath.endswith(".pyx")):
+        if relpath.endswith(".pyx") and not (self.cur_func is not None and self.cur_func.module.relpath.endswith(".pyx")) \
+                and relpath not in getattr(self.top, "pyx_source", ()):
             # seen from Python code a compiled extension is an assumed model; seen from extracted Cython text it is source
             return self.registry.extern("pyx:" + relpath + "::" + name)
         mod = self.repo.module(relpath)
